@@ -20,8 +20,8 @@ PROP = 'C11'
 def jobs(tier: str) -> List[tuple]:
     th = tier == 'thorough'
     js = helper_jobs(C01c.WIDTHS if th else (8, 64))
-    js += validity_jobs()
-    js += loader_jobs(C01c.WIDTHS if th else (64,))  # the segment-list loops: every segments[i] access inside the list (incl. the merge loop's stores)
+    js += validity_jobs()  # the segment-list loops: every segments[i] access inside the list (incl. the merge loop's stores)
+    js += loader_jobs(C01c.WIDTHS if th else (64,))  # bulk load: page-word indices, reference balance on every path
     for w in (C01c.WIDTHS if th else (64,)):
         js.append((C01c.unit_loop, ('run_flat_loop_impl', w, 0)))
     if th:
